@@ -94,7 +94,8 @@ Proof.
   cbn [run_validate self_keys fr_uo fr_st app]. f_equal.
   rewrite validate_for_is_model; [| | exact Hwf].
   - destruct (forallb (fun kv => mem (fst kv) nms) (store_of (insts w i))); reflexivity.
-  - intros k. cbn [ceval ce_key ce_names]. reflexivity.
+  - intros k. cbn [ceval ce_key ce_names ce_uo]. unfold reserved.
+    destruct (mem k nms); destruct (String.eqb k "useroptions"); try destruct (mem k (useropts (insts w i))); reflexivity.
 Qed.
 
 (* ------------------------------------------------------------------ the reserved entry never enters the store *)
